@@ -1,80 +1,129 @@
+// C13 — cached failures (RFC 9520) suppress only what failed, for a bounded time.
+//
+//	part (i)   hist.go/gen.go/model.go  edns+cache+stub histories under virtual time
+//	part (ii)  gen.go localEpisode      request-local causes, then another client
+//	bursts     burst.go                 probe election after expiry (race child)
+//	part (iii) full.go                  real resolver + scripted authorities (authsim)
 package main
 
 import (
-	"context"
+	"encoding/json"
 	"fmt"
+	"os"
 	"time"
 
-	"github.com/miekg/dns"
-	"github.com/semihalev/sdns/config"
-	"github.com/semihalev/sdns/middleware"
-	"github.com/semihalev/sdns/zzverif/stack"
+	"github.com/semihalev/sdns/zzverif/vlib"
 )
 
-func q(name string, t uint16, cd bool) *dns.Msg {
-	m := new(dns.Msg)
-	m.SetQuestion(name, t)
-	m.SetEdns0(1232, false)
-	m.CheckingDisabled = cd
-	return m
+const rule = "safety direction only: a query MUST reach resolution (stub call / authority packet) unless an observed cacheable failure " +
+	"for exactly its (name,type,class,CD,ECS audience) or for a zone at/above it may still be inside min(min*2^(k-1),max) of virtual time since " +
+	"the recording request ended; request-local failures, the kill switch and useful answers leave nothing behind; after expiry a burst of N " +
+	"parked followers causes at most 2 upstream calls and never two at once"
+
+// every valid shape of (failure_cache_min_ttl, failure_cache_max_ttl), ms; 0 = omitted
+var bounds = [][2]int64{
+	{0, 0}, {1000, 1000}, {1000, 2000}, {1000, 300000}, {2000, 7000}, {3000, 10000}, {5000, 300000},
+	{7000, 60000}, {30000, 45000}, {60000, 60000}, {150000, 300000}, {300000, 300000}, {1500, 100000},
+	{0, 8000}, {2000, 0}, {1000, 1001}, {299999, 300000},
 }
 
-func show(tag string, r stack.Result, st *stack.Stack) {
-	if r.Msg == nil {
-		fmt.Println(tag, "no reply wrote=", r.Wrote, "total", st.Stub().Total())
-		return
+var sizes = []int{0, 0, 4, 8, 16, 48, 256}
+
+func histCfg(r *vlib.Run, i int) cfgSpec {
+	rng := r.RandN("hist-cfg", i)
+	cs := cfgSpec{}
+	if i%4 == 3 {
+		// any other valid pair
+		mn := 1000 + rng.Int64N(299000)
+		mx := mn + rng.Int64N(300000-mn+1)
+		cs.MinMS, cs.MaxMS = mn, mx
+	} else {
+		b := bounds[(i-i/4)%len(bounds)]
+		cs.MinMS, cs.MaxMS = b[0], b[1]
 	}
-	ede := ""
-	if o := r.Msg.IsEdns0(); o != nil {
-		for _, e := range o.Option {
-			if x, ok := e.(*dns.EDNS0_EDE); ok {
-				ede += fmt.Sprintf(" EDE%d(%s)", x.InfoCode, x.ExtraText)
-			}
+	cs.Size = sizes[rng.IntN(len(sizes))]
+	cs.ECS = rng.IntN(2) == 0
+	cs.Enforce = rng.IntN(3) == 0
+	cs.Off = i%9 == 8
+	return cs
+}
+
+func runHistories(r *vlib.Run) {
+	n := r.N(140, 6000)
+	for i := 0; i < n; i++ {
+		runOneHistory(r, i, histCfg(r, i), r.RandN("hist", i))
+		r.Progress("history %d/%d", i+1, n)
+	}
+}
+
+// runBurstChild is the race-instrumented half: follower bursts plus a slice of
+// the ordinary histories (virtual-clock steps, client cancellations) under
+// the race detector.
+func runBurstChild(r *vlib.Run) {
+	n := r.N(70, 2500)
+	for i := 0; i < n; i++ {
+		rng := r.RandN("burst", i)
+		cs := histCfg(r, 100000+i)
+		cs.Off = false
+		cs.Size = 0 // no evictions: the retained generation is what elects the probe
+		h, err := newHist(r, 100000+i, cs)
+		if err != nil {
+			r.Inconclusive(fmt.Sprintf("burst history %d: %v", i, err))
+			continue
 		}
+		g := &gen{h: h, rng: rng}
+		r.Count("burst_histories", 1)
+		g.burstHistory()
+		h.close()
+		r.Progress("burst history %d/%d", i+1, n)
 	}
-	fmt.Println(tag, dns.RcodeToString[r.Msg.Rcode], ede, "ans", len(r.Msg.Answer), "total", st.Stub().Total())
+	m := r.N(25, 400)
+	for i := 0; i < m; i++ {
+		runOneHistory(r, 200000+i, histCfg(r, 200000+i), r.RandN("hist-race", i))
+	}
+}
+
+func replay(r *vlib.Run, raw json.RawMessage) {
+	var k struct {
+		Kind string `json:"kind"`
+	}
+	_ = json.Unmarshal(raw, &k)
+	switch k.Kind {
+	case "hist":
+		var c histCase
+		if err := json.Unmarshal(raw, &c); err != nil {
+			r.Fatalf("replay: %v", err)
+		}
+		replayHist(r, c)
+	default:
+		r.Fatalf("replay: unknown case kind %q", k.Kind)
+	}
+	if r.Violations() == 0 {
+		fmt.Println("replay: no violation reproduced")
+	}
 }
 
 func main() {
-	cfg := stack.DefaultConfig()
-	cfg.RecursionFirewall.Mode = config.RecursionFirewallModeEnforce
-	cfg.RecursionFirewall.MaxOutboundQueries = 1
-	cfg.RecursionFirewall.FailureCacheMinTTL.Duration = 2 * time.Second
-	cfg.RecursionFirewall.FailureCacheMaxTTL.Duration = 7 * time.Second
-	mode := "fail"
-	st := stack.MustNew(stack.Options{Config: cfg, Stub: func(ctx context.Context, req *stack.StubRequest) *stack.StubReply {
-		switch mode {
-		case "fail":
-			return &stack.StubReply{Rcode: dns.RcodeServerFailure}
-		case "budget":
-			e1 := middleware.DebitRecursionWork(ctx, middleware.RecursionWorkOutboundQuery)
-			e2 := middleware.DebitRecursionWork(ctx, middleware.RecursionWorkOutboundQuery)
-			fmt.Println("debit", e1, e2, "enf", middleware.RecursionWorkEnforcementError(ctx))
-			return &stack.StubReply{Rcode: dns.RcodeServerFailure}
-		case "gate":
-			return &stack.StubReply{Rcode: dns.RcodeServerFailure, Gate: make(chan struct{})}
-		}
-		return nil
-	}})
-	defer st.Close()
-	c := st.Cache()
-	fmt.Println(c.VerifC13Bounds())
-	show("1 fail", st.ServeMsg("203.0.113.9:4000", "udp", q("a.example.", dns.TypeA, false)), st)
-	show("2 supp", st.ServeMsg("203.0.113.10:4000", "udp", q("a.example.", dns.TypeA, false)), st)
-	pkt, _ := q("a.example.", dns.TypeA, false).Pack()
-	show("2b raw", st.ServeRaw("203.0.113.10:4000", "udp", pkt), st)
-	show("2c cd", st.ServeMsg("203.0.113.10:4000", "udp", q("a.example.", dns.TypeA, true)), st)
-	fmt.Printf("%+v\n", c.VerifC13Failures())
-	c.VerifAdvance(2 * time.Second)
-	show("3 after", st.ServeMsg("203.0.113.10:4000", "udp", q("a.example.", dns.TypeA, false)), st)
-	fmt.Printf("%+v\n", c.VerifC13Failures())
-	mode = "budget"
-	show("4 budget", st.ServeMsg("203.0.113.10:4000", "udp", q("b.example.", dns.TypeA, false)), st)
-	mode = "fail"
-	fmt.Printf("%+v\n", c.VerifC13Failures())
-	mode = "gate"
-	ctx, cancel := context.WithTimeout(context.Background(), 50*time.Millisecond)
-	show("5 deadline", st.ServeMsgCtx(ctx, "203.0.113.10:4000", "udp", q("c.example.", dns.TypeA, false)), st)
-	cancel()
-	fmt.Printf("%+v\n", c.VerifC13Failures())
+	r := vlib.Start("C13", "exploration")
+	r.Assume("virtual time = monotonic real time + the sum of (*Cache).VerifAdvance steps taken at quiescent points; a step rewrites every stored failure retryAfter and is observationally a clock jump")
+	r.Assume("the terminal stub stands in for the resolver: SERVFAIL/REFUSED/… from it is a resolution failure, Store.RecordZoneFailure called from it is the resolver's 'every server of the zone failed' report, request-local causes use the same exported marking API the real layers use")
+	r.Assume("ECS audience = client subnet clamped to the forwarding ceiling (/24, /56); with [ecs] off every client is the global audience")
+	if raw := r.ReplayCase(); raw != nil {
+		replay(r, raw)
+		r.Finish(rule)
+	}
+	if os.Getenv("C13_MODE") == "burst" {
+		runBurstChild(r)
+		r.Finish(rule)
+	}
+	runHistories(r)
+
+	pfx := r.RacePrefix("burst")
+	res := r.Child("burst", nil, vlib.BinPath("c13", "race"), nil,
+		[]string{vlib.RaceEnv(pfx), "C13_MODE=burst"}, time.Duration(r.N(150, 1500))*time.Second)
+	if !res.HasState {
+		r.Inconclusive(fmt.Sprintf("race child did not finish (exit=%d timeout=%v err=%v log=%s)", res.ExitCode, res.TimedOut, res.Err, res.Output))
+	}
+	r.ScanRaceLogs(pfx)
+	r.Finish(rule)
 }
